@@ -12,16 +12,26 @@ CONSTANTS
   ONF = 2
   ONFs = {0, 2}
   OthCorpora <- OthDup
-  Ghosts <- AnyGhost
+  NRep = 2
+  StartVecs <- AccGhost
+  StartRule = "every"
   DoneRule = "all"
   EmitVec = TRUE
   Emit = FALSE
+  EmitStartVec = FALSE
+  Pars = {1}
+  NOcc = 0
+  CrashPoints = "any"
+  PersistAt = "start"
 INVARIANT TypeOK
 INVARIANT FinalFilesComplete
 INVARIANT DoneImpliesSyncResult
 INVARIANT SyncIsRef
 INVARIANT PartialWithinFinal
 INVARIANT AckedRequestSurvives
+INVARIANT KnownIsPersisted
+INVARIANT QueuedIsPersisted
+INVARIANT SlotsBounded
 INVARIANT PersistedPartialsSurvive
 INVARIANT DoneIsDurable
 INVARIANT NoPartialLostOrDuplicated
